@@ -41,6 +41,7 @@ def IsBanned : List String := ["!exists", "record.isExpired()"]
 def RecordFailure : List String := ["!exists", "totalCount >= p.config.PermanentBanAt", "recentFailures >= p.config.MaxFailures"]
 def UpdateAuth : List String := ["!exists"]
 def VerifyResponse : List String := ["err != nil"]
+def banIP : List String := ["duration > 0", "existing, exists := p.bannedIPs[ip]; exists && existing.ExpiresAt.IsZero() && duration > 0", "duration > 0"]
 def handleChallengePhase1 : List String := ["h.secretKeyMgr == nil", "config.SecretKeyEncrypted == \"\"", "err != nil"]
 def handleChallengePhase2 : List String := ["challenge == \"\"", "h.bruteForceProtector != nil", "!h.secretKeyMgr.VerifyResponse(config.SecretKeyEncrypted, challenge, req.ChallengeResponse)", "h.bruteForceProtector != nil", "h.bruteForceProtector != nil"]
 def handleHandshake : List String := ["s.authHandler == nil", "len(connPacket.Packet.Payload) > 0", "err := json.Unmarshal(connPacket.Packet.Payload, req); err != nil", "isControlConnection := req.ConnectionType != \"tunnel\"", "req.ConnectionType == \"\"", "isControlConnection", "existingConn != nil", "conn == nil", "enforcedProtocol == \"\"", "conn.RawConn != nil", "existingConn != nil", "conn == nil", "enforcedProtocol == \"\"", "conn.RawConn != nil", "err != nil", "concreteConn, ok := clientConn.(*ControlConnection); ok", "err := s.sendHandshakeResponse(clientConn, resp); err != nil", "isControlConnection && clientConn.IsAuthenticated() && clientConn.GetClientID() > 0", "oldConn != nil && oldConn.GetConnID() != clientConn.GetConnID()", "s.connStateStore != nil", "err := s.connStateStore.UnregisterConnection(s.Ctx(), oldConn.GetConnID()); err != nil", "concreteConn, ok := clientConn.(*ControlConnection); ok", "err := s.clientRegistry.UpdateAuth(concreteConn.ConnID, clientConn.GetClientID(), concreteConn.UserID); err != nil", "s.connStateStore != nil", "conn != nil && conn.Protocol != \"\"", "err := s.connStateStore.RegisterConnection(s.Ctx(), stateInfo); err != nil", "conn != nil && conn.Stream != nil", "handshakeHandler, ok := reader.(interface{ OnHandshakeComplete(clientID int64) }); ok", "isControlConnection && clientConn.IsAuthenticated() && clientConn.GetClientID() > 0"]
